@@ -196,6 +196,29 @@ LIB = {
         ("generator-throw", "(() => { function* g() { try { yield 1; } catch (e) { yield 'c' + e; } } const it = g(); it.next(); return it.throw('x').value; })()"), ("generator-delegate", "(() => { function* a() { yield 1; return 'r'; } function* b() { const r = yield* a(); yield r; } return [...b()]; })()"),
         ("spread-generator", "(() => { function* g() { yield* [1, 2]; } return [...g(), ...g()]; })()"), ("async-returns-promise", "(async () => 1)() instanceof Promise"), ("label-block", "(() => { a: { break a; } return 1; })()"),
     ],
+    "Iteration": [
+        ("destructure-generator-return", "(() => { function* g() { yield 0; yield 1; return 2; } const [a, b, c, d] = g(); return [a, b, c, d]; })()"),
+        ("assign-generator-return", "(() => { function* g() { yield 0; return 2; } let a, b; [a, b] = g(); return [a, b]; })()"),
+        ("param-generator-return", "(() => { function* g() { yield 0; return 2; } return (([a, b = 7]) => [a, b])(g()); })()"),
+        ("destructure-done-stops-next", "(() => { let n = 0; const it = {[Symbol.iterator]() { return {next() { n++; return {done: true, value: 9}; }, return() { n += 100; return {}; }}; }}; const [a, b, c] = it; return [n, a]; })()"),
+        ("destructure-not-done-closes", "(() => { let n = 0; const it = {[Symbol.iterator]() { return {next() { n++; return {done: false, value: 9}; }, return() { n += 100; return {}; }}; }}; const [a, , c] = it; return [n, a, c]; })()"),
+        ("destructure-mixed", "(() => { const [a, , b = 5, [c, d] = [7, 8], {e} = {e: 9}, ...r] = [1, 2]; return [a, b, c, d, e, r.length]; })()"),
+        ("rest-generator", "(() => { const [a, ...r] = (function* () { yield 1; yield 2; yield 3; })(); return r; })()"), ("rest-set", "(() => { const [a, ...r] = new Set([1, 2, 3]); return r; })()"),
+        ("rest-string", "(() => { const [a, ...r] = 'abc'; return r; })()"), ("rest-map", "(() => { const [a, ...r] = new Map([[1, 2], [3, 4]]); return r; })()"), ("rest-array-iterator", "(() => { const [a, ...r] = [1, 2, 3].values(); return r; })()"),
+        ("rest-user-iterable", "(() => { const [a, ...r] = {[Symbol.iterator]() { let n = 0; return {next() { return {value: n, done: n++ > 2}; }}; }}; return r; })()"),
+        ("rest-assignment", "(() => { let a, r; [a, ...r] = new Set([1, 2, 3]); return r; })()"), ("rest-param", "(([a, ...r]) => r)(new Set([1, 2, 3]))"), ("rest-nested", "(() => { const [a, ...[b, ...c]] = 'wxyz'; return [a, b, c]; })()"), ("rest-empty", "(() => { const [...r] = new Set(); return r; })()"),
+        ("set-from-set", "new Set(new Set([1, 2])).size"), ("set-from-map-keys", "new Set(new Map([[1, 2]]).keys()).size"), ("set-from-generator", "new Set((function* () { yield 1; yield 1; yield 2; })()).size"), ("set-from-values", "new Set([1, 2].values()).size"),
+        ("map-from-map", "(() => { const m = new Map(new Map([[1, {a: 5}]])); return [m.size, m.get(1).a]; })()"), ("map-from-entries", "new Map(Object.entries({a: 1})).get('a')"), ("map-from-generator", "new Map((function* () { yield [1, 2]; })()).get(1)"),
+        ("set-null", "[new Set().size, new Set(null).size, new Map(undefined).size]"), ("set-number", "(() => { try { new Set(5); return 'no'; } catch (e) { return e.name; } })()"), ("map-bad-entry", "(() => { try { new Map([1]); return 'no'; } catch (e) { return e.name; } })()"), ("map-object", "(() => { try { new Map({}); return 'no'; } catch (e) { return e.name; } })()"),
+        ("done-truthy", "(() => { const x = {[Symbol.iterator]() { return {n: 0, next() { return {value: this.n, done: this.n++ < 2 ? 0 : 1}; }}; }}; let r = 0; for (const v of x) r += 10; return [r, [...x].length, Array.from(x).length, new Set(x).size]; })()"),
+        ("done-accessor-for-of", "(() => { const x = {[Symbol.iterator]() { return {n: 0, next() { const k = this.n++; return {value: k, get done() { return k > 1; }}; }}; }}; let r = 0; for (const v of x) r++; return r; })()"),
+        ("done-accessor-spread", "(() => { const x = {[Symbol.iterator]() { return {n: 0, next() { const k = this.n++; return {get value() { return k * 2; }, get done() { return k > 1; }}; }}; }}; return [...x]; })()"),
+        ("done-accessor-throws", "(() => { const x = {[Symbol.iterator]() { return {next() { return {value: 1, get done() { throw new RangeError('d'); }}; }}; }}; try { for (const v of x) {} return 'none'; } catch (e) { return e.name; } })()"),
+        ("value-accessor-throws", "(() => { const x = {[Symbol.iterator]() { return {next() { return {get value() { throw new RangeError('v'); }, done: false}; }}; }}; try { return [...x].length; } catch (e) { return e.name; } })()"),
+        ("result-proxy", "(() => { const x = {[Symbol.iterator]() { return {n: 0, next() { return new Proxy({value: 1, done: this.n++ > 1}, {}); }}; }}; let r = 0; for (const v of x) r++; return [r, [...x].length]; })()"),
+        ("yield-star-done-truthy", "(() => { function* g() { const r = yield* {[Symbol.iterator]() { return {n: 0, next() { return {value: this.n, done: this.n++ < 2 ? '' : 'yes'}; }}; }}; return r; } return [...g()]; })()"),
+        ("pad-non-ascii", "['x'.padStart(2, 'é'), 'x'.padEnd(4, 'éa'), 'é'.padStart(3, 'ßy')]"),
+    ],
     "Scopes": [
         ("scope-a", "(() => { let x='o'; let r=''; for (let i=0;i<3;i++){ let x='i'+i; try { if (i==1) break; r+=x; } finally { r+='f'+x; } } return r+x; })()"),
         ("scope-b", "(() => { let x='o'; let r=''; for (let i=0;i<3;i++){ let x='i'+i; try { if (i==1) continue; r+=x; } finally { r+='f'+x; } } return r+x; })()"),
